@@ -171,9 +171,15 @@ def run(chk):
     cs = CaseSet("c18")
     runs = []
     kinds = ["cart2", "cart3", "cart3", "chunk2", "chunk3", "annulus", "sphere"]
-    for gi in range(14 if quick else 90):
+    n_main = 14 if quick else 90
+    for gi in range(n_main + 2):
         rng.seed("%d/c18-1/%d" % (chk.seed, gi))      # every world has its own stream: families do not disturb each other
         kind = kinds[gi % len(kinds)]
+        giant = gi >= n_main
+        if giant:
+            # a sphere of very large outer radius: the tolerance of the hull merge (1e-12 * outer radius, applied on the unit sphere)
+            # lies between the square of the node spacing and the node spacing itself - neighbours must stay distinct
+            kind = "sphere"
         sph = not kind.startswith("cart")
         dim = 2 if kind in ("cart2", "chunk2", "annulus") else 3
         wj, _ = area_world(rng, spherical=sph, cross=True)
@@ -224,6 +230,10 @@ def run(chk):
             gtype = "sphere"
             nx = ny = 2 + (gi // 7) % 3
             nz = 2
+            if giant:
+                nx = ny = 4 - (gi - n_main)
+                g["z_max"] = [5e10, 8e10][gi - n_main]
+                g["z_min"] = g["z_max"] / 2
         lines = ["grid_type = %s" % gtype, "dim = %d" % dim, "compositions = %d" % comps, "vtu_output_format = ASCII"]
         lines += ["%s = %r" % (k, v) for k, v in g.items()]
         lines += ["n_cell_x = %d" % nx, "n_cell_y = %d" % ny, "n_cell_z = %d" % nz]
